@@ -583,7 +583,12 @@ func (g *Gen) randomReplace() {
 }
 
 func scnHistory(g *Gen, budget int, arg string) {
+	defer func() { mintDenom = "uusdc" }()
 	for g.nOps < budget {
+		mintDenom = "uusdc"
+		if g.chance(0.25) {
+			mintDenom = "uUsDC"
+		}
 		nAtt := 1 + g.pick(4)
 		t := 1 + g.pick(nAtt)
 		g.initStandard(nAtt, t)
